@@ -1106,6 +1106,37 @@ private theorem sep_copyView {w w' : World} {x ai : Nat} (hs : Sep w)
     exact ⟨i3, roots_ok hs ((e1.trans e2).trans (Ext.append _ _))
       (single_ok (Or.inl ⟨kvUpdate kvs' ys, by simp⟩))⟩
 
+private theorem sep_unflatten {w w' : World} {ks : List (Key × Nat)} (hs : Sep w)
+    (h : step w (.unflatten ks) = .ok w') : Sep w' := by
+  simp only [step] at h
+  split at h
+  · cases h
+  · rename_i kvs hres
+    split at h
+    · rename_i hok
+      cases h
+      simp only [Bool.and_eq_true, List.all_eq_true, decide_eq_true_eq] at hok
+      have hch : ∀ p ∈ kvs, Cls true w.heap p.2 := by
+        intro p hp
+        have := hok.1 p hp
+        cases hv : p.2 with
+        | leaf l => trivial
+        | ref a =>
+          rw [hv] at this
+          simp only [childOk] at this
+          split at this
+          · rename_i i hf; exact Or.inr ⟨i, hf⟩
+          · cases this
+      have i2 := HeapInv.alloc_dict hs.heap true kvs hch hok.2
+      have i3 := HeapInv.alloc_frozen i2 w.heap.length ⟨kvs, by simp⟩
+      have heq : w.heap ++ [Obj.dict true kvs, Obj.frozen w.heap.length]
+          = (w.heap ++ [Obj.dict true kvs]) ++ [Obj.frozen w.heap.length] := by simp
+      rw [heq]
+      refine ⟨i3, roots_ok hs ((Ext.append _ _).trans (Ext.append _ _)) (single_ok (Or.inr ⟨w.heap.length, ?_⟩))⟩
+      have : (w.heap ++ [Obj.dict true kvs]).length = w.heap.length + 1 := by simp
+      rw [← this]; simp
+    · cases h
+
 /-- **The separation invariant is preserved by every operation**: every API call and every mutation
 the user can perform on a dict they hold. -/
 theorem step_preserves_sep (w w' : World) (op : Op) (hs : Sep w) (h : step w op = .ok w') : Sep w' := by
@@ -1123,6 +1154,7 @@ theorem step_preserves_sep (w w' : World) (op : Op) (hs : Sep w) (h : step w op 
   | pop x k => exact sep_pop hs h
   | pickle x => exact sep_pickle hs h
   | treeMap x => exact sep_treeMap hs h
+  | unflatten ks => exact sep_unflatten hs h
 
 /-- the empty world satisfies the invariant -/
 theorem sep_init : Sep World.init :=
@@ -2359,10 +2391,15 @@ private theorem owned_children_defined {h : Heap} (hi : HeapInv h) : ∀ (n : Na
       have hb : @LT.lt Nat _ b a := hi.owned_down a kvs hg p hp b hv
       have hown := hi.owned_closed a kvs hg p hp
       rw [hv] at hown
-      obtain ⟨kvsb, hgb⟩ := hown
-      obtain ⟨tsb, htsb⟩ := ih b (by omega) kvsb hgb
-      refine ⟨.node true tsb, absVal_fuel_le h (k := b + 1) (by omega) true _ _ ?_⟩
-      rw [absVal_dict hgb, htsb]; rfl
+      rcases hown with ⟨kvsb, hgb⟩ | ⟨ib, hfb⟩
+      · obtain ⟨tsb, htsb⟩ := ih b (by omega) kvsb hgb
+        refine ⟨.node true tsb, absVal_fuel_le h (k := b + 1) (by omega) true _ _ ?_⟩
+        rw [absVal_dict hgb, htsb]; rfl
+      · obtain ⟨kvsi, hgi⟩ := hi.frozen_inner b ib hfb
+        have hib : @LT.lt Nat _ ib b := hi.frozen_down b ib hfb
+        obtain ⟨tsi, htsi⟩ := ih ib (by omega) kvsi hgi
+        refine ⟨.node true tsi, absVal_fuel_le h (k := ib + 1) (by omega) true _ _ ?_⟩
+        rw [absVal_frozen hfb hgi, htsi]; rfl
 
 /-- **Every FrozenDict denotes a value**: with the fuel the driver uses (`fuelOf`), `absVal` of a
 FrozenDict is defined in every world satisfying the invariant — so `frozen_never_changes` compares
@@ -2706,20 +2743,27 @@ private theorem depth_owned {h : Heap} (hi : HeapInv h) : ∀ (n : Nat) (a : Nat
       have hb : @LT.lt Nat _ b a := hi.owned_down a kvs hg p hp b hv
       have hown := hi.owned_closed a kvs hg p hp
       rw [hv] at hown
-      exact (ih b (by omega) hown).mono_fuel (by omega)
+      rcases hown with hob | ⟨ib, hfb⟩
+      · exact (ih b (by omega) hob).mono_fuel (by omega)
+      · have hib : @LT.lt Nat _ ib b := hi.frozen_down b ib hfb
+        have d := ih ib (by omega) (hi.frozen_inner b ib hfb)
+        exact (Depth.frozen hfb d).mono_fuel (by omega)
 
 /-- under the invariant an owned value fits in the fuel `fuelOf h - 1`, a FrozenDict in `fuelOf h` -/
 private theorem depth_ownedVal {h : Heap} (hi : HeapInv h) {v : Val} (hv : OwnedVal h v) : Depth h v h.length := by
   cases v with
   | leaf l => exact .leaf l _
   | ref a =>
-    obtain ⟨kvs, hg⟩ := hv
-    have := lt_length_of_get hg
-    exact (depth_owned hi a a (Nat.le_refl _) ⟨kvs, hg⟩).mono_fuel (by omega)
+    rcases hv with ⟨kvs, hg⟩ | ⟨i, hf⟩
+    · have := lt_length_of_get hg
+      exact (depth_owned hi a a (Nat.le_refl _) ⟨kvs, hg⟩).mono_fuel (by omega)
+    · have h1 := lt_length_of_get hf
+      have h2 : @LT.lt Nat _ i a := hi.frozen_down a i hf
+      exact (Depth.frozen hf (depth_owned hi i i (Nat.le_refl _) (hi.frozen_inner a i hf))).mono_fuel (by omega)
 
 theorem frozen_depth (w : World) (hs : Sep w) (f i : Addr) (hf : w.heap[f]? = some (Obj.frozen i)) :
     Depth w.heap (.ref f) (fuelOf w.heap) :=
-  .frozen hf (depth_ownedVal hs.heap (v := .ref i) (hs.heap.frozen_inner f i hf))
+  .frozen hf (depth_ownedVal hs.heap (v := .ref i) (Or.inl (hs.heap.frozen_inner f i hf)))
 
 private theorem Ext.length_le {h h' : Heap} (e : Ext h h') : h.length ≤ h'.length := by
   obtain ⟨ext, rfl⟩ := e; simp
@@ -2845,7 +2889,7 @@ private theorem depth_frozenVal {h : Heap} (hi : HeapInv h) {v : Val} (hv : Froz
   | leaf l => exact .leaf l _
   | ref a =>
     obtain ⟨i, hf⟩ := hv
-    exact .frozen hf (depth_ownedVal hi (v := .ref i) (hi.frozen_inner a i hf))
+    exact .frozen hf (depth_ownedVal hi (v := .ref i) (Or.inl (hi.frozen_inner a i hf)))
 
 private theorem mkFrozen_frozenVal {h : Heap} {kvs : List (Key × Val)} {h' : Heap} {v' : Val}
     (hm : mkFrozen h kvs = .ok (h', v')) : FrozenVal h' v' := by
@@ -2996,8 +3040,8 @@ private theorem mkFrozen_fresh {h : Heap} {kvs : List (Key × Val)} {h' : Heap} 
 
 private theorem mapWrap_fresh : ∀ (kvs : List (Key × Val)) (h h2 : Heap) (kvs' : List (Key × Val)),
     mapKvs wrapVal h kvs = .ok (h2, kvs') →
-    (∀ p ∈ kvs, ∀ a, p.2 = Val.ref a → ∃ o kv, h[a]? = some (Obj.dict o kv)) →
-    ∀ p ∈ kvs', ∀ b, p.2 = Val.ref b → h.length ≤ b := by
+    (∀ p ∈ kvs, ∀ a, p.2 = Val.ref a → (∃ o kv, h[a]? = some (Obj.dict o kv)) ∨ isFrozen h a) →
+    ∀ p ∈ kvs', ∀ b, p.2 = Val.ref b → h.length ≤ b ∨ isFrozen h b := by
   intro kvs
   induction kvs with
   | nil => intro h h2 kvs' hm _; simp [mapKvs] at hm; obtain ⟨rfl, rfl⟩ := hm; simp
@@ -3019,27 +3063,41 @@ private theorem mapWrap_fresh : ∀ (kvs : List (Key × Val)) (h h2 : Heap) (kvs
         · cases v with
           | leaf l => simp [wrapVal] at hfv; obtain ⟨_, rfl⟩ := hfv; cases hb
           | ref a =>
-            obtain ⟨o, kv, hg⟩ := hd (key, .ref a) (by simp) a rfl
-            simp only [wrapVal, hg] at hfv
-            obtain ⟨b', hb1, hb2⟩ := mkFrozen_fresh hfv
-            simp at hb
-            rw [hb1] at hb; cases hb; exact hb2
-        · have := ih _ _ _ hrest (fun p hp' a ha => by
-            obtain ⟨o, kv, hg⟩ := hd p (by simp [hp']) a ha
-            exact ⟨o, kv, e1.get hg⟩) p hp b hb
-          have := e1.length_le
-          omega
+            rcases hd (key, .ref a) (by simp) a rfl with ⟨o, kv, hg⟩ | ⟨j, hg⟩
+            · simp only [wrapVal, hg] at hfv
+              obtain ⟨b', hb1, hb2⟩ := mkFrozen_fresh hfv
+              simp at hb
+              rw [hb1] at hb; cases hb; exact Or.inl hb2
+            · simp only [wrapVal, hg] at hfv
+              simp at hfv
+              obtain ⟨_, rfl⟩ := hfv
+              simp at hb; subst hb
+              exact Or.inr ⟨j, hg⟩
+        · rcases ih _ _ _ hrest (fun p hp' a ha => by
+            rcases hd p (by simp [hp']) a ha with ⟨o, kv, hg⟩ | ⟨j, hg⟩
+            · exact Or.inl ⟨o, kv, e1.get hg⟩
+            · exact Or.inr ⟨j, e1.get hg⟩) p hp b hb with h5 | ⟨j, h5⟩
+          · have := e1.length_le
+            exact Or.inl (by omega)
+          · -- a FrozenDict object of the intermediate heap: either it was already there or it is fresh
+            rcases Nat.lt_or_ge b h.length with h6 | h6
+            · obtain ⟨ext, rfl⟩ := e1
+              rw [List.getElem?_append_left h6] at h5
+              exact Or.inr ⟨j, h5⟩
+            · exact Or.inl h6
 
 /-- **Iterating a FrozenDict (`items()`, `values()`, `dict(fd)`, `{**fd}`) yields, key by key, the
 stored contents; every nested dict comes out as a *fresh* FrozenDict object** (allocated by this
-call), never as the stored dict itself. -/
+call), never as the stored dict itself; a stored FrozenDict object (possible after `tree_unflatten`)
+comes out as that same immutable object. -/
 theorem items_same_content (w w' : World) (hsep : Sep w) (x : Nat) (f i : Addr) (k : Nat) (ts : List (Key × Tree))
     (hs : step w (.items x) = .ok w') (hx : w.roots[x]? = some (.ref f))
     (hf : w.heap[f]? = some (Obj.frozen i))
     (ha : absVal false (k + 1) w.heap (.ref f) = some (.node true ts)) :
     ∃ kvs' ts', w'.roots = w.roots ++ kvs'.map (·.2) ∧
       absKvs (absVal false k w'.heap) kvs' = some ts' ∧ canonKvs ts' = canonKvs ts ∧
-      ∀ p ∈ kvs', ∀ b, p.2 = Val.ref b → w.heap.length ≤ b ∧ ∃ j, w'.heap[b]? = some (Obj.frozen j) := by
+      ∀ p ∈ kvs', ∀ b, p.2 = Val.ref b →
+        (w.heap.length ≤ b ∨ ∃ j, w.heap[b]? = some (Obj.frozen j)) ∧ ∃ j, w'.heap[b]? = some (Obj.frozen j) := by
   simp only [step, hx, hf] at hs
   split at hs
   · cases hs
@@ -3061,8 +3119,9 @@ theorem items_same_content (w w' : World) (hsep : Sep w) (x : Nat) (f i : Addr) 
     refine ⟨mapWrap_fresh _ _ _ _ hd (fun p hp a ha => ?_) p hp b hb, ?_⟩
     · have := hown p hp
       rw [ha] at this
-      obtain ⟨kv, hkv⟩ := this
-      exact ⟨true, kv, hkv⟩
+      rcases this with ⟨kv, hkv⟩ | hfz
+      · exact Or.inl ⟨true, kv, hkv⟩
+      · exact Or.inr hfz
     · have := mapWrap_frozenVal _ _ _ _ hd p hp
       rw [hb] at this
       exact this
@@ -3658,5 +3717,64 @@ theorem carried_cache_is_stale_counterexample :
   · decide
   · decide
   · decide
+
+/-! ## the hash of a FrozenDict depends only on its abstract value — also when `_dict` holds FrozenDict objects -/
+
+/-- **`tree_unflatten` / `tree_map` results**: the new FrozenDict's `_dict` holds its children as they
+are (FrozenDict children stay FrozenDict *objects* — a heap shape no other operation produces), and
+its abstract value is the node of the children's values: exactly the value of the FrozenDict obtained
+by freezing the corresponding plain nested dict. -/
+theorem unflatten_content (w w' : World) (ks : List (Key × Nat)) (k : Nat) (hs : step w (.unflatten ks) = .ok w') :
+    ∃ kvs g, resolveKs w.roots ks = some kvs ∧ w'.roots = w.roots ++ [.ref g] ∧
+      w'.heap[g]? = some (Obj.frozen w.heap.length) ∧ w'.heap[w.heap.length]? = some (Obj.dict true kvs) ∧
+      ∀ ts, absKvs (absVal true k w.heap) kvs = some ts →
+        absVal false (k + 1) w'.heap (.ref g) = some (.node true ts) := by
+  simp only [step] at hs
+  split at hs
+  · cases hs
+  · rename_i kvs hres
+    split at hs
+    · cases hs
+      have e : Ext w.heap (w.heap ++ [Obj.dict true kvs, Obj.frozen w.heap.length]) := Ext.append _ _
+      have hinner : (w.heap ++ [Obj.dict true kvs, Obj.frozen w.heap.length])[w.heap.length]? = some (Obj.dict true kvs) := by simp
+      have hfro : (w.heap ++ [Obj.dict true kvs, Obj.frozen w.heap.length])[w.heap.length + 1]? = some (Obj.frozen w.heap.length) := by
+        rw [List.getElem?_append_right (by omega)]; simp
+      refine ⟨kvs, w.heap.length + 1, hres, rfl, hfro, hinner, ?_⟩
+      intro ts hts
+      rw [absVal_frozen hfro hinner, absKvs_mono (fun p _ t ht => absVal_ext e k true p.2 t ht) hts]
+      rfl
+    · cases hs
+
+/-- **`hash` of a FrozenDict depends only on its abstract value**: two FrozenDicts — in the same heap or in
+different ones, whatever their `_dict`s look like inside (raw nested dicts, or FrozenDict objects put
+there by `tree_unflatten`) — with the same abstract value have the same hash.  (In the model `__hash__`
+goes through `items()`, i.e. through the abstract value, by construction; a `__hash__` that walks the raw
+`_dict` instead does not have this property.) -/
+theorem hash_abs_only (H : HashFns) (h h' : Heap) (a b : Addr)
+    (hab : absVal false (fuelOf h) h (.ref a) = absVal false (fuelOf h') h' (.ref b)) :
+    freshHash H h a = freshHash H h' b := by
+  simp only [freshHash, hab]
+
+/-- and with equal *contents* in any insertion orders (different `_dict` shapes included) the hashes agree too -/
+theorem hash_content_only (H : HashFns) (h h' : Heap) (a b : Addr) (t1 t2 : Tree)
+    (h1 : absVal false (fuelOf h) h (.ref a) = some t1) (h2 : absVal false (fuelOf h') h' (.ref b) = some t2)
+    (hm : MapEq t1 t2) : freshHash H h a = freshHash H h' b := by
+  simp only [freshHash, h1, h2, Option.bind_some]
+  exact hash_order_independent H t1 t2 hm
+
+/-- non-vacuity: `fd = freeze({'a': 1})`, `u = tree_unflatten(keys ('k',), [fd])` holds the FrozenDict
+object `fd` inside its `_dict`; `p = freeze({'k': {'a': 1}})` holds a raw dict.  Same abstract value. -/
+private def exU : World :=
+  run World.init [.newDict, .newLeaf (.atom 1), .setKey 0 "a" 1, .freeze 0, .unflatten [("k", 2)],
+    .newDict, .setKey 4 "k" 0, .freeze 4]
+
+example : exU.heap[3]? = some (Obj.dict true [("k", .ref 2)]) ∧ exU.heap[2]? = some (Obj.frozen 1) ∧
+    exU.roots[3]? = some (.ref 4) ∧ exU.roots[5]? = some (.ref 8) ∧
+    exU.heap[7]? = some (Obj.dict true [("k", .ref 6)]) ∧ exU.heap[6]? = some (Obj.dict true [("a", .leaf (.atom 1))]) := by
+  decide
+example : (match absVal false (fuelOf exU.heap) exU.heap (.ref 4), absVal false (fuelOf exU.heap) exU.heap (.ref 8) with
+    | some (.node true [("k", .node true [("a", .leaf (.atom 1))])]),
+      some (.node true [("k", .node true [("a", .leaf (.atom 1))])]) => true
+    | _, _ => false) = true := by decide
 
 end Flax.C15
